@@ -220,9 +220,10 @@ static Result check_history(const J &c)
 int main(int argc, char **argv)
 {
   g_ref.start(fresh_process_answers); // before anything in this process touches the library
+  scratch_dir();                      // shared by the per-case child processes
   return run_main("C01", argc, argv,
   {
-    {"history_3d", "1..3 worlds alive (1..5 features of all types, deterministic models, operations, optional forced surface T) x histories of 3..25 batched 3D requests (1..8 properties, any mix/order/multiplicity); oracle: twin world answering stand-alone requests, reversed/duplicated list, replay of the whole history in reverse. Non-trivial: point inside a feature and >=2 different kinds in the list", 60, [](Chooser &ch) { return gen_history(ch, false); }, check_history},
-    {"history_2d", "same with a cross section; 75% of the requests through the 2D entry points", 60, [](Chooser &ch) { return gen_history(ch, true); }, check_history},
+    {"history_3d", "1..3 worlds alive (1..5 features of all types, deterministic models, operations, optional forced surface T) x histories of 3..25 batched 3D requests (1..8 properties, any mix/order/multiplicity); oracle: twin world answering stand-alone requests, reversed/duplicated list, replay of the whole history in reverse. Non-trivial: point inside a feature and >=2 different kinds in the list", 60, [](Chooser &ch) { return gen_history(ch, false); }, check_history, 100, true, true},
+    {"history_2d", "same with a cross section; 75% of the requests through the 2D entry points", 60, [](Chooser &ch) { return gen_history(ch, true); }, check_history, 100, true, true},
   });
 }
